@@ -12,6 +12,9 @@
      consume a bit list. *)
 From V Require Import Common.Base.
 
+(* linear-time list reversal (List.rev is quadratic when extracted); frev l = rev l *)
+Definition frev {A : Type} (l : list A) : list A := rev_append l [].
+
 (* ---------- GolombWriter, as coded ---------- *)
 
 Record gwst : Type := mkGw {
@@ -71,7 +74,7 @@ Fixpoint gw_run_ops (ops : list wop) (g : gwst) : gwst :=
   end.
 
 (* scan bytes of an encoder run: all WriteBits calls, then Flush *)
-Definition gw_run (ops : list wop) : list Z := rev (gw_out (gw_Flush (gw_run_ops ops gw_init))).
+Definition gw_run (ops : list wop) : list Z := frev (gw_out (gw_Flush (gw_run_ops ops gw_init))).
 
 (* ---------- bit-list view of the same stream ---------- *)
 
